@@ -71,6 +71,7 @@ type found struct {
 	Viol   Violation
 	Tape   []uint32
 	Sample []string
+	Cold   bool     // found by a cold-start process (replay must pass -cold)
 	Sched  []string // schedule / fault decisions of the (replayed) run
 	Race   string   // race detector report, if that is what fired
 }
